@@ -1071,8 +1071,8 @@ def reduce_array(data):
             if len(data.dtype.names) == 1:
                 # get a simpler view
                 return data[data.dtype.names[0]]
-    else:
-        return data
+
+    return data
 
 
 def _match_key(d, key, require=False):
